@@ -100,6 +100,12 @@ def main():
         shutil.rmtree(f"/tmp/seedverify/out_{name}", ignore_errors=True)
     dst = VERIF / "seeded" / name
     dst.mkdir(parents=True, exist_ok=True)
+    if no_tests and (dst / "meta.json").exists() and (dst / "patch.diff").exists() \
+            and (dst / "patch.diff").read_text() == (src / "patch.diff").read_text():
+        old = json.loads((dst / "meta.json").read_text()).get("confirmed", {})  # keep an earlier suite run of the same patch
+        for k in ("tests", "tests_pass"):
+            if k in old:
+                rec[k] = old[k]
     shutil.copy(src / "patch.diff", dst / "patch.diff")
     shutil.copy(src / "demo.py", dst / "demo.py")
     agent_meta = {}
